@@ -94,19 +94,14 @@ abbrev TAcc := List (Head × Ast × VarT)
 
 def eraseAcc (acc : TAcc) : List (Head × Ast) := acc.map fun x => (x.1, x.2.1)
 
-/-- `var_type` of `nodes[k]` before the final linking -/
-def nodeVt (t0 : VarT) : TAcc → VarT
-  | [] => t0
-  | (_, _, t) :: _ => t
-
-/-- the `set_left` chain: type of the top node (`none` = `UDQ::coerce` throws somewhere down
-the chain).  The top node sees only the not yet linked node below it. -/
+/-- the chain folded from the left: every operator node sees the complete type of its left
+operand (`none` = `UDQ::coerce` throws) -/
 def buildT (t0 : VarT) : TAcc → Option VarT
   | [] => some t0
   | (_, _, t) :: prev =>
     match buildT t0 prev with
     | none => none
-    | some _ => updateType t (nodeVt t0 prev)
+    | some below => updateType t below
 
 def finishChain (n0 : Ast) (t0 : VarT) (acc : TAcc) (rest : List Tok) : TRes :=
   match buildT t0 acc with
@@ -157,10 +152,11 @@ def tAtom : Nat → Bool → List Tok → TRes
             | .stop s => .stop s
             | .ok arg vt rest => closeParenT neg (Ast.un (opHead c)) (funcType c.ty vt) arg rest
           else .ok errNode .none r
-      else
+      else if c.ty = .number ∨ c.ty = .ecl_expr then
         match leafType c with
         | .error s => .stop s
         | .ok vt => .ok (.leaf (leafHead c neg)) vt r
+      else .ok errNode .none ts
 
 def tPow : Nat → List Tok → TRes
   | 0, _ => .fuel
@@ -299,14 +295,5 @@ def parseTyped (target : VarT) (ts : List Tok) : TParsed :=
     else if !staticTypeCheck target vt then .typeError
     else if vt = .none then .noType
     else .ast a vt
-
-/-- what the repaired chain would compute: every operator node sees the complete type of its
-left operand (candidate patch `design.d/C17.chain-type.patch`) -/
-def buildFix (t0 : VarT) : TAcc → Option VarT
-  | [] => some t0
-  | (_, _, t) :: prev =>
-    match buildFix t0 prev with
-    | none => none
-    | some below => updateType t below
 
 end OpmVerif.Udq
